@@ -406,7 +406,7 @@ func c05Run(t *testing.T, s *sim.Scn) *sim.Outcome {
 }
 
 func c05Gen(r *rand.Rand, tier string) *sim.Scn {
-	if r.IntN(8) == 0 || os.Getenv("VERIF_C05_WHOLE_ONLY") != "" {
+	if (r.IntN(8) == 0 && os.Getenv("VERIF_NO_WHOLE") == "") || os.Getenv("VERIF_C05_WHOLE_ONLY") != "" {
 		return c05WholeGen(r, tier)
 	}
 	n := 2 + r.IntN(6)
